@@ -161,4 +161,13 @@ TEXT = {
         level_note=NOTE,
         technique="round-trip property testing (write/read, idempotence, differential navigation); libFuzzer",
     ),
+    "C07": dict(
+        level_text="N free-running threads (2-8 streams, generated event->stream assignment and start skews) share one CoreParams with a step "
+                   "collector, ActionDiagnostic and StepDiagnostic; every event's step stream must be bit-identical to the serial single-stream run "
+                   "and diagnostic totals equal the serial sums (asan flavour); the same cases under ThreadSanitizer must produce no report. "
+                   "Exploration of schedules that happen to occur; honest limit: schedule-dependent bugs invisible to TSan can be missed.",
+        design_ref="DESIGN.md §4 C07",
+        level_note=NOTE,
+        technique="differential property testing (concurrent vs serial) + ThreadSanitizer on generated stream assignments",
+    ),
 }
